@@ -421,6 +421,9 @@ def _path_conditions(ins, assign):
                     ok = False
                     break
                 if flags[0] == "fcmp":
+                    if cc in ("vs", "vc"):
+                        conds.append(((flags[1], "unord", flags[2]), taken if cc == "vs" else not taken))
+                        continue
                     rel = {"gt": ">", "mi": "<", "lt": "<", "ge": ">=", "le": "<=", "ls": "<=", "hi": ">", "eq": "==", "ne": "!="}.get(cc)
                     if rel is None or flags[1] is None:
                         ok = False
@@ -923,3 +926,80 @@ def check_interval_piecewise(rule, root=None):
             rule.bad("a64|interval|%s|both" % name, "aarch64 interval %s: %s" % (name, verdict[1]), "%s:%d" % (p, b.fn["ln"]))
         else:
             rule.skip("aarch64 interval %s" % name, verdict[1])
+
+
+def check_grad_piecewise(rule, root=None):
+    """gradient abs / min / max return one operand whole (all four lanes), selected by a comparison of the value
+    lanes: abs -> -x when x.v < 0 else x; max -> lhs when lhs.v > rhs.v else rhs; min -> lhs when lhs.v < rhs.v
+    else rhs (a NaN value lane gives NaN: the path behind `b.vs`)"""
+    p = X.path_of("grad_slice")
+    builders = X.load_builders(p, root)
+    table = {"build_abs": ("<", None), "build_max": (">", "R"), "build_min": ("<", "R")}
+    for name, (rel, other) in table.items():
+        b = builders.get(name)
+        if b is None:
+            rule.lost("aarch64 grad_slice %s" % name)
+            continue
+        outp = AC.out_param(b)
+        inputs = [n_ for (n_, ty) in b.params if ty == "u8" and n_ != outp]
+        verdict = None
+        n = 0
+        for alias_to in [None] + inputs:
+            ins = X.flat_ins(b)
+            if alias_to:
+                ins = _copy.deepcopy(ins)
+                for x in ins:
+                    for o in x.ops:
+                        if o.kind == "vec" and o.name == "T:%s" % outp:
+                            o.name = "T:%s" % alias_to
+            assign = {"T:%s" % inputs[0]: list(L)}
+            if len(inputs) > 1:
+                assign["T:%s" % inputs[1]] = list(R)
+            res = _path_conditions(ins, assign)
+            if not res:
+                verdict = ("skip", "control flow not understood")
+                break
+            for conds, pins, ok, em in res:
+                nan_path = any(x.mnem == "b.vs" for x in pins) and any("NAN" in " ".join(o.text for o in x.ops) for x in pins)
+                if nan_path:
+                    continue
+                if not ok:
+                    verdict = ("skip", "a test is outside the modelled idioms")
+                    break
+                dec = [(c, t) for c, t in conds if c[1] != "unord"]
+                # drop the NaN screen (b.vs not taken has no modelled relation); the deciding test is the last one
+                if not dec:
+                    verdict = ("bad", "a path reaches the end without testing the value lanes")
+                    break
+                (e_, r_, rhs_), truth = dec[-1]
+                rhs_want = ZERO if other is None else R[0]
+                if e_ != L[0] or rhs_ != rhs_want or r_ not in ("<", ">"):
+                    verdict = ("bad", "the deciding test is `%s %s %s`; the interpreter compares the value lanes `%s %s %s`" % (e_, r_, rhs_, L[0], rel, rhs_want))
+                    break
+                picks_first = truth if r_ == rel else (not truth if {r_, rel} == {"<", ">"} and False else None)
+                if r_ != rel:
+                    verdict = ("bad", "the deciding test is `%s %s %s`; the interpreter selects on `%s %s %s` (they differ when the values are equal)" % (e_, r_, rhs_, L[0], rel, rhs_want))
+                    break
+                if other is None:
+                    want = [-q for q in L] if truth else list(L)
+                else:
+                    want = list(L) if truth else list(R)
+                got = em.v.get("T:%s" % (alias_to or outp)) or [None] * 4
+                n += 1
+                for l in range(4):
+                    if got[l] is None:
+                        verdict = ("skip", "lane %d is computed outside the modelled subset" % l)
+                    elif sp.simplify(got[l] - want[l]) != 0:
+                        verdict = ("bad", "when `%s %s %s` is %s, lane %d of the output is `%s`, the interpreter's is `%s`%s" % (e_, r_, rhs_, truth, l, got[l], want[l], (" (output in `%s`'s register)" % alias_to) if alias_to else ""))
+                    if verdict:
+                        break
+                if verdict:
+                    break
+            if verdict:
+                break
+        if verdict is None:
+            rule.ok("aarch64 grad_slice %s: the selected operand's value and gradient, whole (%d path placements)" % (name, n), file=p, line=b.fn["ln"])
+        elif verdict[0] == "bad":
+            rule.bad("a64|grad_slice|%s|piecewise" % name, "aarch64 grad_slice %s: %s" % (name, verdict[1]), "%s:%d" % (p, b.fn["ln"]))
+        else:
+            rule.skip("aarch64 grad_slice %s" % name, verdict[1])
